@@ -28,6 +28,7 @@ import (
 
 var interpolateTypeCastMapping = map[tree.Path]interp.Cast{
 	servicePath("blkio_config", "weight"):                          toInt,
+	servicePath("blkio_config", "weight_device", "[]", "weight"):   toInt,
 	servicePath("build", "secrets", tree.PathMatchList, "mode"):    toInt,
 	servicePath("build", "ulimits", tree.PathMatchAll):             toInt,
 	servicePath("build", "ulimits", tree.PathMatchAll, "hard"):     toInt,
